@@ -198,7 +198,7 @@ theorem inv_put {a : Abs} (h : Inv cfg spec s) (hi : s.workers[i]? = some w) (hs
 theorem wstep_inv (hc : Canonical spec cfg.prog) (h : Inv cfg spec s) (hi : s.workers[i]? = some w)
     (hh : w.halted = false) (quit : Bool) (mb : Option (Option BufId))
     (hs : wstep cfg s i w quit mb = some s') : Inv cfg spec s' := by
-  rcases h.wk i w hi with hhalt | ⟨a, hsim, hchk⟩
+  rcases h.wk i w hi with ⟨hhalt, _⟩ | ⟨a, hsim, hchk⟩
   · rw [hh] at hhalt; exact absurd hhalt (by simp)
   unfold wstep at hs
   split at hs
@@ -247,11 +247,16 @@ theorem wstep_inv (hc : Canonical spec cfg.prog) (h : Inv cfg spec s) (hi : s.wo
     rename_i a' ha'
     split at ha' <;> simp at ha'
     rename_i hnc; subst ha'
+    have hcn : w.cur = none := by
+      have := hsim.cur_eq
+      cases hc' : w.cur with
+      | none => rfl
+      | some d0 => rw [hc'] at this; simp at this; rw [← this] at hnc; simp at hnc
     split at hs
     · -- quit
       simp at hs; subst hs
       exact inv_local h hi _ _ rfl ⟨rfl, rfl, rfl, rfl, rfl, rfl, rfl, rfl⟩ (fun x => Nat.le_refl _) (fun _ he => he)
-        (.inl rfl) (fun _ _ hp => hp) (fun _ _ hp => hp)
+        (.inl ⟨rfl, hcn⟩) (fun _ _ hp => hp) (fun _ _ hp => hp)
     · split at hs <;> simp at hs
       rename_i b d q hq; subst hs
       have hbd := h.qmem b d (by rw [hq]; simp)
